@@ -385,6 +385,36 @@ func c20Reader(c *fw.Case) {
 			return
 		}
 		remainingAtFailure = rd.Remaining()
+		if r.Chance(1, 4) {
+			// on a reader that has failed, ANY later operation keeps the first error — also one whose own argument
+			// is unusable (a length that went negative in the caller's arithmetic)
+			neg := -1 - r.Intn(1<<20)
+			var nb []byte
+			var ns string
+			pan, val, st := fw.Try(func() {
+				switch r.Intn(3) {
+				case 0:
+					nb = rd.ReadNBytes(neg)
+				case 1:
+					ns = rd.ReadCStringN(neg)
+				default:
+					ns = rd.ReadCStringNWithoutTrim(neg)
+				}
+			})
+			c.Evals(1)
+			if pan {
+				c.Failf("reader-"+fw.PanicSig(val, st), "a read of length %d on a failed reader: %v\n%s", neg, val, st)
+				return
+			}
+			if e := rd.Error(); e == nil || e.Error() != firstErr {
+				c.Failf("reader-first-error-replaced", "%s: a read of length %d on the failed reader changed Error() from %q to %v", ctx(), neg, firstErr, e)
+				return
+			}
+			if nb != nil || ns != "" || rd.Remaining() != remainingAtFailure {
+				c.Failf("reader-nonzero-after-failure/negative-length", "%s: a read of length %d on the failed reader returned b=%s s=%q, Remaining %d -> %d", ctx(), neg, hx(nb), ns, remainingAtFailure, rd.Remaining())
+				return
+			}
+		}
 		if !zero {
 			c.Failf("reader-nonzero-after-failure/"+o.kind, "%s: a failed read returned u=%d b=%s s=%q instead of zero values", ctx(), gu, hx(gb), gs)
 			return
